@@ -340,6 +340,24 @@ func (w *World) applyDiskFault(c *ClientInfo, f *Fault, file string, data []byte
 		}
 		out = out[:f.A%uint64(len(out))]
 		what = fmt.Sprintf("to %d", len(out))
+	case "cache-garbage":
+		out = pseudo(f.B, 1+int(f.A%200))
+		what = fmt.Sprintf("%d random bytes", len(out))
+	case "cache-swap":
+		// the content of another cache file of the same kind (another tile, another lookup answer)
+		isLookup := strings.Contains(file, "/lookup/")
+		var others []string
+		for _, k := range SortedKeys(c.Machine.Cache) {
+			if k != c.Machine.cacheKey(file) && strings.Contains(k, "/lookup/") == isLookup {
+				others = append(others, k)
+			}
+		}
+		if len(others) == 0 {
+			return data
+		}
+		pick := others[int(f.A%uint64(len(others)))]
+		out = append([]byte(nil), c.Machine.Cache[pick]...)
+		what = "content of " + pick
 	case "cache-cross":
 		alt := w.otherUniverse(c.Uni)
 		if alt == nil {
